@@ -103,19 +103,65 @@ CHECKS = {
              "Trusted: Coq kernel, harness.",
         technique="Coq proof of order-independence / re-application on the model + execution under varied orders, histories and hash seeds",
         design="5/C15"),
+    "C02": dict(
+        text="Theorems (Coq): the traversal collects exactly the import statements occurring at any depth of any statement tree (C02_collect, nested induction over an arbitrary rose tree, so it covers "
+             "statement-list positions of grammars not yet written); naming rules for the three forms (C02_names_*); the architecture's imports are exactly the resolved, kept import statements of the "
+             "importer's file between two different graph modules (C02_edges_exact). Tie to /repo: statement-list positions enumerated from the running interpreter's ast grammar, nested to depth 3, "
+             "x 9 import forms, built as ASTs, unparsed, re-parsed, written to real packages and scanned from root and from a sub-package; random projects; scanned imports vs documented resolution (python oracle) and vs the model scan.",
+        note="ast.parse/ast.unparse, pathlib and the file system are modelled not verified. Trusted: Coq kernel, extraction, driver, harness.",
+        technique="Coq proof (rose-tree induction, edge characterisation) + grammar-enumerated correspondence on real files",
+        design="5/C02"),
+    "C04": dict(
+        text="Theorems (Coq, every directory tree, exclusion predicate abstract): the modules of a walk are exactly root::path of every non-excluded .py file and directory none of whose ancestors down from the start "
+             "is excluded (C04_modules); parsed files are such modules; graph nodes = modules + every ancestor (C04_nodes), closed under ancestors (C04_ancestor_closed); sub modules = nodes whose name extends the module (C04_sub_modules). "
+             "Tie to /repo: random trees (depth<=5, prefix-sibling names, packages with/without __init__, empty dirs, non-.py files) x EVERY directory as module_path: modules vs tree, sub-module sets, sub scan vs restricted root scan, "
+             "module-object entry point on really imported packages, all vs the model scan.",
+        note="The sub-scan = restricted-root-scan statement and the module-object entry point are checked by correspondence only (no theorem). pathlib/os modelled not verified. Trusted: Coq kernel, extraction, driver, harness.",
+        technique="Coq proof (rose-tree induction over directory trees) + correspondence on real directory trees",
+        design="5/C04"),
+    "C06": dict(
+        text="Theorems (Coq, every list of lines): the parsed relation is exactly the drawn arrows with both ends resolved through the alias table (C06_relation), the components exactly the declared or referenced ones "
+             "(C06_components), aliases resolve to their component and other names stand for themselves, independent of line order (C06_order_independent, Permutation). Lexical layer: PARTIAL - every documented line form, "
+             "tag slicing and tag rejection checked by evaluation on one instance each (C06_lexical_forms_partial), not universally over names. Tie to /repo: diagrams printed from random relations (all declaration/arrow/reference forms, "
+             "dotted names, shuffled lines, noise, text outside tags) through the real PumlParser vs the drawn relation and vs the model parser (which reads the same text).",
+        note="Python regex semantics of the parser's patterns are not modelled in general: only the documented subset is generated and modelled. Trusted: Coq kernel, extraction, driver, harness.",
+        technique="Coq proof (semantic layer) + evaluation of lexical forms + correspondence on printed diagrams",
+        design="5/C06"),
+    "C07": dict(
+        text="Theorem C07_conformance (Coq, every graph, every well-formed diagram, both modes): DiagramRule passes exactly when for every ordered pair of distinct components a imports b iff a->b is drawn, and (should-only) no component "
+             "with outgoing arrows imports anything outside its drawn targets and itself - proved by showing each generated rule strict and applying C01_verdict; C07_aggregates (all violated rules' lines, none lost); C07_base_module (definitional). "
+             "Tie to /repo: random relations x near-conforming graphs x both modes x both naming options on real .puml files vs documented conformance (python oracle), aggregated message vs each violated pairwise rule, model compared.",
+        note="Trusted: Coq kernel, extraction, driver, harness. Depends on C01's comprehension-level search model.",
+        technique="Coq proof (reduction to C01 per generated rule) + correspondence on real diagram files",
+        design="5/C07"),
+    "C09": dict(
+        text="Theorems (Coq, every module list / import list / k): nodes of the limited graph = truncations of the full graph's nodes (C09_quotient_modules); a imports b iff some x->y of the full graph truncates to (a,b), a<>b, hierarchy-coinciding "
+             "imports absorbed (C09_quotient_imports, under: import endpoints are modules); limit counted below module_path (C09_effective_limit); C09_related_refuted: kernel-checked witness that verdict preservation fails for related subject/object (known finding K1). "
+             "Verdict preservation for unrelated rules: checked on the real code (both architectures) for C01's shapes - no theorem yet (partial). Tie to /repo: random projects x module_path x k=1..depth: limited scan vs quotient of the unlimited scan and vs model.",
+        note="K1 is an open known finding (known_findings.json), matched per case (related subject/object + level-limited). Trusted: Coq kernel, extraction, driver, harness.",
+        technique="Coq proof (quotient characterisation) + refuted-witness + metamorphic correspondence on real scans",
+        design="5/C09"),
+    "C10": dict(
+        text="Theorems (Coq, exclusion patterns as oracle): externals excluded => every kept import is internal and no external module is added; included => every external importee and all its ancestors are modules; "
+             "a match on the importee or an ancestor removes the import and the module; internal imports are kept in every configuration and every added module is external (C10_*). "
+             "Tie to /repo: random projects with internal/external imports (nested externals, prefix/suffix-sharing names, root-package imports, non-module relative importees, relative imports leaving module_path) x 3 module_paths x "
+             "{exclude, include, include+glob, include+regex} vs the documented effect (python oracle), internal view compared across configurations, all vs the model scan.",
+        note="Pattern matching on dotted names is the real re (oracle table handed to the model); glob fragment proved in C08. Trusted: Coq kernel, extraction, driver, harness.",
+        technique="Coq proof (filter/extension lemmas with oracle) + correspondence on real scans",
+        design="5/C10"),
     "C08": dict(
-        text="Theorems (Coq, all patterns and all newline-free path strings, no bound): the glob->regex converter always emits a regex of the "
-             "modelled fragment that parses back to (leading star, literal text, trailing star), and convert+re.match equals the documented "
-             "four-case meaning (C08_escape, C08_glob, four shape corollaries). Tie to /repo: exhaustive correspondence over a small alphabet "
-             "(real converter output string = model's; real FileFilter.is_excluded = model matcher, newline included) plus the four-case oracle "
-             "evaluated directly on the real code.",
-        note="Trusted: Coq kernel, extraction (ExtrOcamlBasic) + driver, Python harness. Modelled not verified: CPython re on the emitted fragment "
-             "(compared exhaustively up to the stated lengths). Part (b) (tree-level exclusion) is covered by model<->code scan correspondence, see DESIGN.",
+        text="Theorems (Coq): (a) all patterns and all newline-free path strings, no bound: the glob->regex converter always emits a regex of the modelled fragment that parses back to (leading star, literal text, trailing star), "
+             "and convert+re.match equals the documented four-case meaning (C08_escape, C08_glob, four shape corollaries). (b) every directory tree, exclusion predicate abstract: the modules of a scan are exactly the files/directories "
+             "none of whose ancestors-or-self down from module_path is excluded, and only those files are parsed (C08_scan_modules, C08_scan_files); C08_from_import_refuted: kernel-checked witness of known finding K2. "
+             "Tie to /repo: (a) exhaustive over a small alphabet (converter output string; real FileFilter vs model matcher incl. newline; four-case oracle on the real code); (b) random trees x exclusion tuples built from the tree's own paths "
+             "(glob shapes and regex translations, names with regex metacharacters): filtered vs unfiltered real scan, vs model with the oracle from the real re.",
+        note="'Imports between remaining modules unchanged' has no general theorem (K2 shows it is false in one corner); it is checked on the real code with K2 instances matched as known finding. "
+             "Trusted: Coq kernel, extraction (ExtrOcamlBasic) + driver, Python harness. Modelled not verified: CPython re on the emitted fragment (compared exhaustively up to the stated lengths).",
         technique="Coq proof (induction on pattern/subject) + exhaustive model/implementation correspondence",
         design="5/C08"),
 }
 
-PENDING = "check not built yet in this snapshot (Coq model and correspondence under construction; see DESIGN.md section 6 staging)"
+PENDING = "not claimed"
 
 
 def main():
